@@ -1,17 +1,18 @@
 import FiberModel.C04.Spec
 /-
-C04 — region of the recorded known finding K1 (known/C04.json).
+C04 — the inputs of the repaired finding F5 (recorded as known finding K1 until the repair).
 
-K1: a registration inside a mounted sub-app whose path is empty (`sub.Use(mw)`, `sub.Get("", h)`,
-`sub.Group("", mw)`) is stored by the sub-app as "/" (router.go register: `if pathRaw == "" {
-pathRaw = "/" }`) and therefore mounted as `prefix + "/"`, whereas the same call on a group with the
-mount prefix registers `prefix` itself. Unless StrictRouting is on both spell the same route
-(trailing slashes are trimmed); with StrictRouting — or when the prefix consists of slashes only,
-e.g. "//" — the two compositions answer `prefix` / `prefix + "/"` differently.
+Before F5 a registration inside a mounted sub-app whose path is empty (`sub.Use(mw)`,
+`sub.Get("", h)`, `sub.Group("", mw)`) was stored by the sub-app as "/" and therefore mounted as
+`prefix + "/"`, whereas the same call on a group with the mount prefix registers `prefix` itself;
+with StrictRouting — or a prefix of slashes only, e.g. "//" — the two compositions answered
+`prefix` / `prefix + "/"` differently. The code now prefixes the path as it was handed to `register`
+(`Route.pathOrig`), and the property theorems hold on these inputs too (`Props.lean`). The region is
+kept only so that the driver can tag the cases that exercise it (`f5-region` in the evidence).
 
-`regionItems` follows the definition tree with the in-app group prefix `c` (what the sub-app's own `register`
-sees) and the prefix `s` the group composition would be at, and fires exactly on an empty in-app
-path whose group-side path does not already end in exactly one slash.
+`regionItems` follows the definition tree with the in-app group prefix `c` (what the sub-app's own
+`register` sees) and the prefix `s` the group composition would be at, and fires exactly on an
+empty in-app path whose group-side path does not already end in exactly one slash.
 -/
 namespace C04.Known
 open B C04
@@ -38,11 +39,7 @@ def regionItems (bad : Bytes → Bool) (c s : Option Bytes) : List Item → Bool
   | i :: is => regionItem bad c s i || regionItems bad c s is
 end
 
-/-- the region of K1 for a root application's definition tree -/
-def K1 (cfg : Cfg) (items : List Item) : Bool := regionItems (badPrefix cfg) none none items
-
-/-- configuration-independent: some empty-path registration sits at a group-side prefix that does
-not already end in exactly one slash (then the two compositions store different `Path`s) -/
-def emptyDisagrees (items : List Item) : Bool := regionItems (fun S => !emptyAgree S) none none items
+/-- the inputs on which the two compositions answered differently before F5 -/
+def F5region (cfg : Cfg) (items : List Item) : Bool := regionItems (badPrefix cfg) none none items
 
 end C04.Known
